@@ -4,3 +4,52 @@ From V Require Import Prelude.Base gen.K_cache.
    context before anything is derived from it *)
 Lemma l0_guard_meaning : forall l0, k_cache_l0_guard l0 = true <-> ~ (0 <= l0 <= 2147483647).
 Proof. intros l0. unfold k_cache_l0_guard. lia. Qed.
+
+(* ------------------------------------------------------------------------------------------------
+   C05: error-class analysis of the offline unprotect pipeline. This file: the predicates and the
+   combinators; the per-function lemmas are in Proofs/C05Asn1.v (DER reader + CMS), Proofs/C05Blob.v
+   (blob, key identifier, protection descriptor, security descriptor) and Proofs/C05Keys.v (KDF
+   parameters, key chain, KEK, crypto wrappers, cache, the composition). *)
+Definition safe_err (e : err) : bool := deliberate e || match e with NeedNetwork => true | _ => false end.
+Definition Safe {A} (r : res A) : Prop := match r with Ok _ => True | Raise e => safe_err e = true end.
+(* Safe with a postcondition on the value (Safe = SafeP (fun _ => True)) *)
+Definition SafeP {A} (Q : A -> Prop) (r : res A) : Prop :=
+  match r with Ok a => Q a | Raise e => safe_err e = true end.
+
+Lemma SafeP_Safe {A} (Q : A -> Prop) r : SafeP Q r -> Safe r.
+Proof. destruct r; cbn; auto. Qed.
+Lemma Safe_SafeP {A} (r : res A) : Safe r -> SafeP (fun _ => True) r.
+Proof. destruct r; cbn; auto. Qed.
+Lemma SafeP_weaken {A} (Q R : A -> Prop) r : SafeP Q r -> (forall a, Q a -> R a) -> SafeP R r.
+Proof. destruct r; cbn; auto. Qed.
+Lemma SafeP_and {A} (Q R : A -> Prop) r : SafeP Q r -> SafeP R r -> SafeP (fun a => Q a /\ R a) r.
+Proof. destruct r; cbn; auto. Qed.
+Lemma SafeP_Ok {A} (Q : A -> Prop) a : Q a -> SafeP Q (Ok a).
+Proof. auto. Qed.
+Lemma SafeP_inv {A} (Q : A -> Prop) r a : SafeP Q r -> r = Ok a -> Q a.
+Proof. intros H ->. exact H. Qed.
+
+(* the combinator lemma *)
+Lemma Safe_bind {A B} (m : res A) (f : A -> res B) : Safe m -> (forall a, Safe (f a)) -> Safe (bind m f).
+Proof. destruct m; cbn; auto. Qed.
+(* the variant where f is only applied to results of m *)
+Lemma Safe_bind_res {A B} (m : res A) (f : A -> res B) : Safe m -> (forall a, m = Ok a -> Safe (f a)) -> Safe (bind m f).
+Proof. destruct m; cbn; auto. Qed.
+Lemma SafeP_bind {A B} (Q : A -> Prop) (R : B -> Prop) (m : res A) (f : A -> res B) :
+  SafeP Q m -> (forall a, Q a -> SafeP R (f a)) -> SafeP R (bind m f).
+Proof. destruct m; cbn; auto. Qed.
+Lemma SafeP_bind_res {A B} (Q : A -> Prop) (R : B -> Prop) (m : res A) (f : A -> res B) :
+  SafeP Q m -> (forall a, m = Ok a -> Q a -> SafeP R (f a)) -> SafeP R (bind m f).
+Proof. destruct m; cbn; auto. Qed.
+
+Lemma Safe_Raise_ValueError {A} : Safe (@Raise A ValueError). Proof. reflexivity. Qed.
+Lemma Safe_Raise_NotEnoughData {A} : Safe (@Raise A NotEnoughData). Proof. reflexivity. Qed.
+Lemma Safe_Raise_NotImplementedError {A} : Safe (@Raise A NotImplementedError). Proof. reflexivity. Qed.
+Lemma Safe_Raise_NeedNetwork {A} : Safe (@Raise A NeedNetwork). Proof. reflexivity. Qed.
+
+(* the internal error classes are exactly the unsafe ones *)
+Lemma safe_err_spec e : safe_err e = true <->
+  e <> IndexError /\ e <> OverflowError /\ e <> StructError /\ e <> TypeError /\ e <> KeyError /\
+  e <> AttributeError /\ e <> EOFError /\ e <> IncompleteRead /\ e <> OutOfFuel.
+Proof. destruct e; cbn; split; intros H; try reflexivity; try discriminate;
+  try (repeat split; discriminate); exfalso; intuition congruence. Qed.
